@@ -56,6 +56,12 @@ func isUnauthorized(tx *TxResult) bool {
 		return tx.Authorized != nil && !*tx.Authorized
 	case "forge":
 		return true
+	case "avsreg", "avsdereg", "avstask":
+		return tx.Op.M == 1 // the sender argument is not a listed owner
+	case "avsupd":
+		return tx.Op.M == 3
+	case "avsres":
+		return tx.Op.E == 5 // signed by another account than the operator it is attributed to
 	}
 	return false
 }
